@@ -26,7 +26,7 @@ LEVEL_TEXT = ("Lean theorems over facts regenerated from tools/*.c on every run:
               "exercised on the tools built from the working tree: token lists of 0..512 good/bad tokens as arguments and on stdin, every "
               "documented option in both spellings, generate->verify round trips per key type, key2jwk/jwk2key on fresh keys of every type "
               "with EC keys drawn until leading-zero coordinates occur.")
-ASSUMPTIONS = ["PARTIAL: exec/pipes/file writing and the tools' glue around the library are exercised, not modelled", "--print piping is not covered",
+ASSUMPTIONS = ["PARTIAL: exec/pipes/file writing and the tools' glue around the library are exercised, not modelled", "--print piping is covered for jwt-generate only (what reaches stdout), not for jwt-verify",
                "bats is not installed, so the repository's own CLI tests are not part of any baseline here"]
 TRUSTED_BASE = ["Lean 4.33.0 kernel", "tie/extract.py (optstr, long-option tables, usage lines, exit expression, EC export calls)",
                 "harness/props/c20.py (process runs), harness/keys.py (independent DER/JWK), harness/oracle.c"]
@@ -239,6 +239,22 @@ def run(ctx, model_ok, deep=False):
                         if rc2 != 0:
                             V("falsifier:cli-roundtrip", "token from jwt-generate (%s, %s) is rejected by jwt-verify with the same key (status %d)" % (kname, alg, rc2),
                               detail=err2.decode("latin-1")[-400:])
+        # ---------------- --print: what the print command writes never lands among the tokens ------------------
+        # `jwt-generate -v -p CMD` pipes header and payload through CMD for display; stdout still carries the token and nothing
+        # a verifier reading it line by line would take for a bad token -- whatever shape CMD has (a compound shell command too)
+        kfile = os.path.join(d, "oct32.json")
+        for cmd_ in ("cat", "cat && true", "cat; echo", "cat | cat", "true"):
+            for gargs in (["-v", "-p", cmd_, "-k", kfile, "-c", "s:sub=print"], ["--verbose", "--print=" + cmd_, "--key=" + kfile, "--claim=s:sub=print"]):
+                if not os.path.exists(kfile):
+                    continue
+                rc, out, err = tool(ctx, "jwt-generate", gargs)
+                ev += 1
+                distinct.add(("print", cmd_, gargs[0], rc))
+                toks_ = [l for l in out.decode("latin-1").split("\n") if l.count(".") == 2 and l.startswith("ey")]
+                rc2, _, err2 = tool(ctx, "jwt-verify", ["-q", "-k", kfile, "-"], stdin=out) if rc == 0 else (99, b"", b"")
+                if rc != 0 or len(toks_) != 1 or rc2 != 0:
+                    V("falsifier:cli-print", "jwt-generate %s --print=%r: status %d, %d token line(s) on stdout, and jwt-verify reading that stdout exits with %d" % (
+                        gargs[0], cmd_, rc, len(toks_), rc2), ["# jwt-generate %s | jwt-verify -q -k oct32.json -" % " ".join(gargs[:3])], detail=out.decode("latin-1")[:400])
         # ---------------- key2jwk: the same key in every legal PEM dress ------------------------------
         def dress(pem, how, key, private):
             if how == "bag-attributes":
